@@ -210,6 +210,7 @@ pub fn shapes(args: &Args) -> SubResult {
             check_c06: true,
             check_c10: false,
             check_ledger: true,
+            check_presence: false,
         };
         let mut ops: Vec<String> = (1..=n).map(|i| format!("load N n{i}")).collect();
         ops.extend(["put l0.l 11", "ev F:l0.l", "hr", "ev F:n1.n", "hr"].iter().map(|s| s.to_string()));
